@@ -655,6 +655,15 @@ pub fn invalidate_oplog(
     }
 }
 
+/// Writes the invalid flag to disk. Used at start-up after an invalid op-log was discarded: the
+/// node keeps running with the op-log marked invalid in memory, so the flag must say the same on
+/// disk until the next `snapshot_keys` covers the keys registered meanwhile.
+pub fn mark_op_log_as_invalid_on_disk() -> Result<usize, Error> {
+    let mut file_writer = get_invalidate_file_write_mode();
+    file_writer.seek(SeekFrom::Start(0)).unwrap();
+    file_writer.write(&[0])
+}
+
 fn mark_op_log_as_valid(dbs: &Arc<Databases>) -> Result<usize, Error> {
     dbs.is_oplog_valid.swap(true, Ordering::Relaxed);
     log::debug!("marking op log as valid");
